@@ -9,7 +9,7 @@ cd /verif
 rc_all=0
 for c in "$@"; do
   set +e
-  SX_REPO="$d" ./check "$c" "$tier" > "$d/out.$c" 2>&1
+  SX_OUT="$d" SX_REPO="$d" ./check "$c" "$tier" > "$d/out.$c" 2>&1
   rc=$?
   set -e
   echo "== $c exit=$rc :: $(grep -c '^VIOLATION' "$d/out.$c") violations; $(tail -1 "$d/out.$c")"
